@@ -9,7 +9,7 @@ PROPERTY = 'C06'
 LEVEL = 'exploration'
 RULE = ('status table: top-level {Success, Requester, Responder, VersionMismatch, unknown URI, Status absent} x second-level {absent, 19 standard codes, '
         'VersionMismatch/Responder as sub-code, unknown URI} x StatusMessage present/absent x {no assertion, valid signed assertion} x {response signed, unsigned with '
-        'signed assertion}; version table: Version in {1.0,1.1,2.0,2.1,3.0,"","two","2.0 "} x status {Success, Requester} x assertion, and the same Version list for '
+        'signed assertion} x {fresh SP object, SP object that has just handled a LogoutResponse} x entry point {parse_authn_request_response, parse_attribute_query_response over SOAP}; version table: Version in {1.0,1.1,2.0,2.1,3.0,"","two","2.0 "} x status {Success, Requester} x assertion, and the same Version list for '
         'AuthnRequest and LogoutRequest on the IdP side (Redirect/POST/SOAP encodings); enumerated in full. Non-trivial = not the plain Success/2.0 row; '
         'distinct = distinct row.')
 ASSUMPTIONS = ['xmlsec1 stand-in for the signatures; frozen clock; documents otherwise valid so the status check is reached',
@@ -38,6 +38,11 @@ def status_rows():
                         if top is None and (sub or msg):
                             continue
                         out.append({'kind': 'status', 'top': top, 'sub': sub, 'msg': msg, 'assertion': assertion, 'rsigned': rsigned, 'version': '2.0'})
+                        if assertion and msg is None:
+                            # the same row on an SP object that has just handled a (successful) LogoutResponse, and through the attribute-query answer entry point
+                            out.append({'kind': 'status', 'top': top, 'sub': sub, 'msg': msg, 'assertion': assertion, 'rsigned': rsigned, 'version': '2.0', 'history': 'logout-response-first'})
+                            if rsigned:
+                                out.append({'kind': 'status', 'top': top, 'sub': sub, 'msg': msg, 'assertion': assertion, 'rsigned': False, 'version': '2.0', 'entry': 'attrq'})
     for v in VERSIONS:
         for top in ('Success', 'Requester'):
             for assertion in (False, True):
@@ -45,10 +50,24 @@ def status_rows():
     return out
 
 
+LOGOUT_RESPONSE = ('<samlp:LogoutResponse xmlns:samlp="urn:oasis:names:tc:SAML:2.0:protocol" xmlns:saml="urn:oasis:names:tc:SAML:2.0:assertion" ID="id-lr-1" Version="2.0" '
+                   'IssueInstant="%s" InResponseTo="id-lq-1"><saml:Issuer>%s</saml:Issuer><samlp:Status><samlp:StatusCode Value="urn:oasis:names:tc:SAML:2.0:status:Success"/>'
+                   '</samlp:Status></samlp:LogoutResponse>')
+
+
 def run_response(case):
     now = spside.NOW
-    sp = spside.sp_for({'want_response_signed': case['rsigned'], 'want_assertions_signed': not case['rsigned']})
+    attrq = case.get('entry') == 'attrq'
+    if attrq:
+        sp = spside.sp_for({'want_response_signed': False, 'want_assertions_signed': False, 'want_assertions_or_response_signed': False})
+    else:
+        sp = spside.sp_for({'want_response_signed': case['rsigned'], 'want_assertions_signed': not case['rsigned']})
     clock.set_now(now)
+    if case.get('history') == 'logout-response-first':
+        try:
+            sp.parse_logout_request_response(build.soap_envelope(LOGOUT_RESPONSE % (build.ts(now), spside.IDP)), world.SOAP)
+        except Exception:
+            pass
     r, a = build.standard(now)
     r['version'] = case['version']
     if case['top'] is None:
@@ -56,8 +75,13 @@ def run_response(case):
     else:
         r['status'] = {'code': _uri(case['top']), 'sub': _uri(case['sub']), 'message': case['msg']}
     alist = [a] if case['assertion'] else []
-    doc = build.render(r, alist, sign_response=1 if case['rsigned'] else None, sign_assertions=1)
-    v = spside.deliver(sp, doc)
+    if attrq:
+        a['authn'] = []
+        r['destination'] = None
+        v = spside.deliver_attr(sp, build.render(r, alist))
+    else:
+        doc = build.render(r, alist, sign_response=1 if case['rsigned'] else None, sign_assertions=1)
+        v = spside.deliver(sp, doc)
     ok_status = case['top'] == 'Success'
     ok_version = case['version'] == '2.0'
     if v[0] == 'accept':
